@@ -124,7 +124,13 @@ impl Prop for P {
                 let blocks = &t.r.blocks;
                 let hdr = if t.zlib { 0 } else { 0 };
                 let _ = hdr;
-                let flags = zflags(t.zlib) | TINFL_FLAG_STOP_ON_BLOCK_BOUNDARY;
+                // raw streams: sometimes with "compute the Adler-32 anyway" (then the record's checksum
+                // field is live and must survive a rebuild from the full record)
+                let compute = !t.zlib && *keep_zlib_fields && sched.budgets.len() % 2 == 0;
+                let flags = zflags(t.zlib) | TINFL_FLAG_STOP_ON_BLOCK_BOUNDARY | if compute { TINFL_FLAG_COMPUTE_ADLER32 } else { 0 };
+                if compute {
+                    cx.class("boundary:raw+compute-adler32");
+                }
                 let mut d = DecompressorOxide::new();
                 let mut nb = 0usize;
                 let mut interesting = false;
@@ -161,6 +167,13 @@ impl Prop for P {
                         }
                         if blocks[nb + 1].n_match > 0 {
                             interesting = true;
+                        }
+                    }
+                    // "Adler32 checksum of the data decompressed so far" (documented field)
+                    if t.zlib || compute {
+                        let want = crate::oracle::sums::adler32_ref(1, &plain[..info.total_out.min(plain.len())]);
+                        if bs.check_adler32 != want {
+                            return Err(Violation::new("c19:boundary-check_adler32", format!("stop #{}: record says check_adler32 = {:#010x}, the Adler-32 of the {} bytes produced so far is {want:#010x} ({} stream, {} rebuild(s) before)", nb + 1, bs.check_adler32, info.total_out, if t.zlib { "zlib" } else { "raw + COMPUTE_ADLER32" }, nb)));
                         }
                     }
                     cx.class(&format!("boundary:num_bits:{}", bs.num_bits));
